@@ -260,6 +260,7 @@ package scipipe
 
 //@ func (*FileIP).AuditFilePath(ip) (res)
 //@   props C10 C11
+//@   replay pure
 //@   ensures def: res == ip.path + ".audit.json"
 
 //@ func (*FileIP).AuditInfo(ip) (res)
@@ -585,6 +586,7 @@ package scipipe
 
 //@ func sortedStringMapKeys(kv) (keys)
 //@   props C14 C15
+//@   replay pure
 //@   deterministic by-contract the strictly sorted list of the keys of a map is unique (postcondition sorted-keys)
 //@   ensures sorted-keys: sortedKeysOf(keys, dom(kv))
 //@   loop 0 invariant elems: forall i int :: 0 <= i && i < len(keys) ==> $visited[keys[i]]
@@ -594,6 +596,7 @@ package scipipe
 
 //@ func sortedFileIPMapKeys(kv) (keys)
 //@   props C14 C15
+//@   replay pure
 //@   deterministic by-contract the strictly sorted list of the keys of a map is unique (postcondition sorted-keys)
 //@   ensures sorted-keys: sortedKeysOf(keys, dom(kv))
 //@   loop 0 invariant elems: forall i int :: 0 <= i && i < len(keys) ==> $visited[keys[i]]
@@ -603,6 +606,7 @@ package scipipe
 
 //@ func sortedFileIPSliceMapKeys(kv) (keys)
 //@   props C14
+//@   replay pure
 //@   deterministic by-contract the strictly sorted list of the keys of a map is unique (postcondition sorted-keys)
 //@   ensures sorted-keys: sortedKeysOf(keys, dom(kv))
 //@   loop 0 invariant elems: forall i int :: 0 <= i && i < len(keys) ==> $visited[keys[i]]
@@ -1329,6 +1333,7 @@ package scipipe
 
 //@ func pathIsValid(path) (res, err)
 //@   props C09
+//@   replay pure
 //@   ensures def: err == nil && (res <==> validPath(path))
 
 //@ func NewBaseIP(path) (res)
